@@ -514,21 +514,47 @@ struct World {
     latency: i64,
     n_assets: usize,
     instruments: Vec<(usize, usize)>,
+    mag: Mag,
 }
 
-fn gen_init(rng: &mut Rng, mode: &str, malformed: bool) -> (String, World) {
+/// Magnitude class of a case (oracle review C08-M1 / M4): `Normal` = the original distribution
+/// (notional of an accepted order <= 2000, <= 8 decimal places); `Large` = prices up to 1e6, quantities
+/// up to 1e4, balances up to 1e12 (notionals far beyond any threshold a tiered rule could use); `Small`
+/// = prices / quantities / balances between 1e-9 and 1e-2. Large and Small also draw the fee from a
+/// wider set (below -1, above 1, three and four decimals). All three stay inside what `rust_decimal`
+/// computes EXACTLY: every product has at most 20 significant digits and 18 decimal places.
+#[derive(Clone, Copy, PartialEq)]
+enum Mag {
+    Normal,
+    Large,
+    Small,
+}
+
+const WIDE_FEES: [&str; 12] =
+    ["0", "0.001", "0.0025", "0.075", "0.333", "0.5", "1", "1.5", "2", "5", "-0.5", "-2"];
+
+fn gen_init(rng: &mut Rng, mode: &str, malformed: bool, mag: Mag) -> (String, World) {
     let latency = *rng.pick(&[0u64, 1, 2, 7, 100, 101]);
     let fee = *rng.pick(&["0", "0", "0.01", "0.001", "0.1", "0.25", "1"]);
     let fee = if rng.chance(3) { "-0.01" } else { fee };
+    let fee = if mag == Mag::Normal { fee } else { *rng.pick(&WIDE_FEES) };
     let n_assets = rng.range(1, 4) as usize;
     let mut bals: Vec<String> = (0..n_assets)
-        .map(|_| match rng.below(6) {
-            0 => "0".to_string(),
-            1 => d(rng.range(1, 30), 0),
-            2 => d(rng.range(1, 3000), 2),
-            3 => d(rng.range(50, 2000), 0),
-            4 => d(rng.range(1, 99999), 3),
-            _ => d(rng.range(1, 100), 0),
+        .map(|_| match (mag, rng.below(6)) {
+            (Mag::Large, 0) => d(rng.range(1, 100), 0),
+            (Mag::Large, 1) => d(rng.range(1, 999_999_999_999), 3),
+            (Mag::Large, 2) => d(*rng.pick(&[10_000i64, 1_000_000, 1_000_000_000, 1_000_000_000_000]), 0),
+            (Mag::Large, _) => d(rng.range(10_000, 99_999_999_999), 2),
+            (Mag::Small, 0) => "0".to_string(),
+            (Mag::Small, 1) => d(rng.range(1, 999_999), 9),
+            (Mag::Small, 2) => d(*rng.pick(&[1i64, 5, 10, 25]), *rng.pick(&[3u32, 6, 9])),
+            (Mag::Small, _) => d(rng.range(1, 9_999), 6),
+            (Mag::Normal, 0) => "0".to_string(),
+            (Mag::Normal, 1) => d(rng.range(1, 30), 0),
+            (Mag::Normal, 2) => d(rng.range(1, 3000), 2),
+            (Mag::Normal, 3) => d(rng.range(50, 2000), 0),
+            (Mag::Normal, 4) => d(rng.range(1, 99999), 3),
+            (Mag::Normal, _) => d(rng.range(1, 100), 0),
         })
         .collect();
     if rng.chance(2) {
@@ -561,7 +587,7 @@ fn gen_init(rng: &mut Rng, mode: &str, malformed: bool) -> (String, World) {
             .map(|(b, q)| format!(" {b}:{q}"))
             .collect::<String>()
     );
-    (line, World { latency: latency as i64, n_assets, instruments })
+    (line, World { latency: latency as i64, n_assets, instruments, mag })
 }
 
 fn gen_open(rng: &mut Rng, w: &World, t: i64) -> String {
@@ -573,19 +599,33 @@ fn gen_open(rng: &mut Rng, w: &World, t: i64) -> String {
     };
     let side = if rng.chance(50) { "B" } else { "S" };
     let kind = if rng.chance(10) { "L" } else { "M" };
-    let price = match rng.below(10) {
-        0 => "0".to_string(),
-        1 => d(-rng.range(1, 5), 0),
-        2 | 3 => d(rng.range(1, 5), 0),
-        4 => d(rng.range(1, 20000), 2),
-        _ => d(*rng.pick(&[1i64, 2, 10, 100]), 0),
+    let price = match (w.mag, rng.below(10)) {
+        (_, 0) => "0".to_string(),
+        (Mag::Large, 1) => d(-rng.range(1, 5000), 0),
+        (Mag::Large, 2 | 3) => d(*rng.pick(&[1_000i64, 10_000, 100_000, 1_000_000]), 0),
+        (Mag::Large, 4 | 5) => d(rng.range(1, 99_999_999), 2),
+        (Mag::Large, _) => d(rng.range(100, 50_000), 0),
+        (Mag::Small, 1) => d(-rng.range(1, 5), 6),
+        (Mag::Small, 2 | 3) => d(*rng.pick(&[1i64, 2, 5, 25]), *rng.pick(&[3u32, 6, 8])),
+        (Mag::Small, _) => d(rng.range(1, 9_999), 6),
+        (Mag::Normal, 1) => d(-rng.range(1, 5), 0),
+        (Mag::Normal, 2 | 3) => d(rng.range(1, 5), 0),
+        (Mag::Normal, 4) => d(rng.range(1, 20000), 2),
+        (Mag::Normal, _) => d(*rng.pick(&[1i64, 2, 10, 100]), 0),
     };
-    let qty = match rng.below(12) {
-        0 => "0".to_string(),
-        1 => d(-rng.range(1, 5), 0),
-        2 => d(rng.range(1, 9999), 3),
-        3 => d(rng.range(1, 400), 0),
-        _ => d(*rng.pick(&[1i64, 2, 5, 10, 25, 50]), *rng.pick(&[0u32, 0, 1])),
+    let qty = match (w.mag, rng.below(12)) {
+        (_, 0) => "0".to_string(),
+        (Mag::Large, 1) => d(-rng.range(1, 5000), 0),
+        (Mag::Large, 2 | 3) => d(rng.range(1, 9_999_999), 3),
+        (Mag::Large, 4) => d(*rng.pick(&[100i64, 1_000, 10_000]), 0),
+        (Mag::Large, _) => d(rng.range(1, 400), 0),
+        (Mag::Small, 1) => d(-rng.range(1, 5), 6),
+        (Mag::Small, 2 | 3) => d(rng.range(1, 9_999), 6),
+        (Mag::Small, _) => d(*rng.pick(&[1i64, 2, 5, 10, 25, 50]), *rng.pick(&[2u32, 3, 4])),
+        (Mag::Normal, 1) => d(-rng.range(1, 5), 0),
+        (Mag::Normal, 2) => d(rng.range(1, 9999), 3),
+        (Mag::Normal, 3) => d(rng.range(1, 400), 0),
+        (Mag::Normal, _) => d(*rng.pick(&[1i64, 2, 5, 10, 25, 50]), *rng.pick(&[0u32, 0, 1])),
     };
     let _ = w.n_assets;
     format!(
@@ -595,10 +635,10 @@ fn gen_open(rng: &mut Rng, w: &World, t: i64) -> String {
     )
 }
 
-fn gen_case(rng: &mut Rng, out: &mut Out, big: bool) {
+fn gen_case(rng: &mut Rng, out: &mut Out, big: bool, mag: Mag) {
     let is_async = rng.chance(70);
     let malformed = !is_async && rng.chance(25);
-    let (line, w) = gen_init(rng, if is_async { "async" } else { "direct" }, malformed);
+    let (line, w) = gen_init(rng, if is_async { "async" } else { "direct" }, malformed, mag);
     out.line(line);
     let len = rng.range(0, if big { 60 } else { 25 });
     let mut t: i64 = rng.range(0, 5);
@@ -703,7 +743,13 @@ fn generate(seed: u64, n_cases: usize, tier: &str) {
         id += 1;
         out.case(format!("r{id}"));
         let mut r = rng.fork();
-        gen_case(&mut r, &mut out, big);
+        // every 10th case each: large / small magnitudes (the others are generated exactly as before)
+        let mag = match id % 10 {
+            3 => Mag::Large,
+            7 => Mag::Small,
+            _ => Mag::Normal,
+        };
+        gen_case(&mut r, &mut out, big, mag);
     }
     out.flush();
 }
